@@ -213,8 +213,8 @@ def run(ctx):
     # ---- software path vs F16C path, stream by stream
     compared = 0
     raw_only = set()
-    located = 0
-    for key in sorted(digests["sw"]):
+    differing = {}   # stream -> list of (job id, sub, args) in job order
+    for key in sorted(digests["sw"], key=lambda k: (k[1].split("/")[0], k[0], k[1])):
         if key not in digests["f16c"]:
             continue
         vs, rs, ns, args = digests["sw"][key]
@@ -222,14 +222,20 @@ def run(ctx):
         compared += int(ns)
         stream, sub = key[1].split("/")
         if vs != vh or ns != nh:
-            if located < 3 and ctx.time_left() > 30:
-                locate_path_difference(ctx, bins, list(args), stream, int(sub))
-                located += 1
-            else:
-                ctx.violation("C08/path/%s/unlocated/sw-differs-from-f16c" % stream, "digest of %s (job %s) differs between the software and the F16C build" % (key[1], key[0]),
-                              harness="c08-path", args=["--pathjob", stream, str(sub)] + list(args))
+            differing.setdefault(stream, []).append((key[0], int(sub), list(args)))
         elif rs != rh:
             raw_only.add(stream)
+    located = 0
+    for stream in sorted(differing):
+        jid, sub, args = differing[stream][0]
+        if len(differing[stream]) > 1:
+            ctx.note("path comparison: %d digests of stream %s differ between the software and the F16C build; the first one (job %s, chunk %d) is re-enumerated" % (len(differing[stream]), stream, jid, sub))
+        if located < 4 and ctx.time_left() > 30:
+            locate_path_difference(ctx, bins, args, stream, sub)
+            located += 1
+        else:
+            ctx.violation("C08/path/%s/unlocated/sw-differs-from-f16c" % stream, "digest of %s/%d (job %s) differs between the software and the F16C build" % (stream, sub, jid),
+                          harness="c08-path", args=["--pathjob", stream, str(sub)] + args)
     missing = [k for k in digests["sw"] if k not in digests["f16c"]] + [k for k in digests["f16c"] if k not in digests["sw"]]
     if missing and not skipped and not crashed:
         raise vlib.HarnessError("digest streams present in only one build: %s" % missing[:4])
